@@ -21,3 +21,22 @@ def pmap(fn, items, repo_root, workers=16, chunksize=None):
     ctx = mp.get_context('fork')
     with ctx.Pool(workers, initializer=_init, initargs=(repo_root,)) as pool:
         return pool.map(fn, items, chunksize=chunksize or max(1, len(items) // (workers * 4)))
+
+
+class JobTimeout(BaseException):
+    pass
+
+
+def with_timeout(fn, arg, seconds):
+    """Run fn(arg) under a wall-clock alarm (worker processes only); raises JobTimeout."""
+    import signal
+
+    def handler(signum, frame):
+        raise JobTimeout()
+    old = signal.signal(signal.SIGALRM, handler)
+    signal.setitimer(signal.ITIMER_REAL, seconds, 1.0)     # re-fires every second in case it is swallowed
+    try:
+        return fn(arg)
+    finally:
+        signal.setitimer(signal.ITIMER_REAL, 0)
+        signal.signal(signal.SIGALRM, old)
